@@ -29,7 +29,7 @@ ASSUMPTIONS = [
 ]
 CONFIG = {
     "quick": {"examples": 400, "shards": 16, "shrink_s": 40, "time_budget_s": 270},
-    "thorough": {"examples": 1500, "shards": 16, "shrink_s": 200, "time_budget_s": 1500},
+    "thorough": {"examples": 6000, "shards": 16, "shrink_s": 200, "time_budget_s": 1500},
 }
 GROUPS = ["B", "SO", "C2", "C4", "Z2", "triv", "perm"]
 NO_PERM = {"C2", "Z2", "triv"}
